@@ -10,7 +10,7 @@ package autodiff
 
 //@ props C10 C20
 
-//@ for $M,$S,$E,$V in (DenseFloat64Matrix,Float64,float64,DenseFloat64Vector)
+//@ for $M,$S,$E,$V in (DenseFloat64Matrix,Float64,float64,DenseFloat64Vector), (DenseFloat32Matrix,Float32,float32,DenseFloat32Vector), (DenseIntMatrix,Int,int,DenseIntVector)
 //@ spec WF_$M(m *$M) bool =
 //@   m != nil && 0 <= m.rows && 0 <= m.cols && 0 <= m.rowOffset && 0 <= m.colOffset &&
 //@   m.rowOffset + m.rows <= m.rowMax && m.colOffset + m.cols <= m.colMax &&
@@ -160,4 +160,62 @@ package autodiff
 //@   loop 2 invariant forall p int, q int :: instore_$M(matrix, p, q) && !inwin_$M(matrix, p, q) ==> matrix.values[cell_$M(matrix, p, q)] == old(matrix.values[cell_$M(matrix, p, q)])
 //@   loop 2 invariant forall b int, k int :: b != base(matrix.values) ==> row($E, b)[k] == old(row($E, b)[k])
 //@   loop 2 decreases m - j
+//@ end
+
+// ---------------------------------------------------------------------------
+// dense matrices of magic scalars: index arithmetic, transposed views, element access (C10, C20)
+// (SLICE is not under contract here: it re-crops the scratch vectors through NullDense*Vector)
+
+//@ props C10 C20
+
+//@ for $M,$S in (DenseReal64Matrix,Real64), (DenseReal32Matrix,Real32)
+//@ spec WF_$M(m *$M) bool =
+//@   m != nil && 0 <= m.rows && 0 <= m.cols && 0 <= m.rowOffset && 0 <= m.colOffset &&
+//@   m.rowOffset + m.rows <= m.rowMax && m.colOffset + m.cols <= m.colMax &&
+//@   len(m.values) == m.rowMax * m.colMax
+//@ spec addr_$M(m *$M, i int, j int) int =
+//@   ite(m.transposed, (m.colOffset + j)*m.rowMax + (m.rowOffset + i), (m.rowOffset + i)*m.colMax + (m.colOffset + j))
+//@ spec inview_$M(m *$M, i int, j int) bool = 0 <= i && i < m.rows && 0 <= j && j < m.cols
+//@ spec cell_$M(m *$M, p int, q int) int = ite(m.transposed, q*m.rowMax + p, p*m.colMax + q)
+//@ spec instore_$M(m *$M, p int, q int) bool = 0 <= p && p < m.rowMax && 0 <= q && q < m.colMax
+
+//@ func (*$M).index
+//@   requires WF_$M(matrix)
+//@   panics_when i < 0 || j < 0 || i >= matrix.rows || j >= matrix.cols
+//@   ensures result == addr_$M(matrix, i, j)
+//@   ensures 0 <= result && result < len(matrix.values)
+//@   ensures @injective forall p int, q int :: instore_$M(matrix, p, q) && !(p == matrix.rowOffset + i && q == matrix.colOffset + j) ==> result != cell_$M(matrix, p, q)
+//@   pure
+
+//@ spec t_post_$M(m *$M, r *$M) bool =
+//@   WF_$M(r) && r.rows == m.cols && r.cols == m.rows && r.values == m.values &&
+//@   (forall i int, j int :: inview_$M(r, i, j) ==> inview_$M(m, j, i) && addr_$M(r, i, j) == addr_$M(m, j, i))
+//@ func (*$M).MagicT [also: (*$M).T]
+//@   requires WF_$M(matrix)
+//@   ensures isa(*$M, result) && fresh(as(*$M, result))
+//@   ensures t_post_$M(matrix, as(*$M, result))
+//@   modifies nothing
+
+//@ func (*$M).AT
+//@   requires WF_$M(matrix)
+//@   panics_when !inview_$M(matrix, i, j)
+//@   ensures result == matrix.values[addr_$M(matrix, i, j)]
+//@   pure
+
+//@ func (*$M).ConstAt [also: (*$M).At, (*$M).MagicAt]
+//@   requires WF_$M(matrix)
+//@   panics_when !inview_$M(matrix, i, j)
+//@   ensures isa(*$S, result) && as(*$S, result) == matrix.values[addr_$M(matrix, i, j)]
+//@   pure
+
+//@ func (*$M).Dims
+//@   ensures result0 == ite(matrix == nil, 0, matrix.rows) && result1 == ite(matrix == nil, 0, matrix.cols)
+//@   pure
+
+//@ func (*$M).Swap
+//@   requires WF_$M(matrix)
+//@   panics_when !inview_$M(matrix, i1, j1) || !inview_$M(matrix, i2, j2)
+//@   ensures matrix.values[addr_$M(matrix, i1, j1)] == old(matrix.values[addr_$M(matrix, i2, j2)]) && matrix.values[addr_$M(matrix, i2, j2)] == old(matrix.values[addr_$M(matrix, i1, j1)])
+//@   ensures forall k int :: k != addr_$M(matrix, i1, j1) && k != addr_$M(matrix, i2, j2) ==> matrix.values[k] == old(matrix.values[k])
+//@   modifies []*$S@{matrix.values}
 //@ end
